@@ -3,6 +3,7 @@ use cbor_event::de::Deserializer;
 use cbor_event::se::Serializer;
 use crate::{BootstrapWitness, DeserializeError, DeserializeFailure, Ed25519Signature, Vkey};
 use crate::protocol_types::{CBORSpecial, Deserialize, DeserializeEmbeddedGroup};
+use crate::serialization::utils::check_len;
 
 impl cbor_event::se::Serialize for BootstrapWitness {
     fn serialize<'se, W: Write>(
@@ -22,6 +23,7 @@ impl Deserialize for BootstrapWitness {
     fn deserialize<R: BufRead + Seek>(raw: &mut Deserializer<R>) -> Result<Self, DeserializeError> {
         (|| -> Result<_, DeserializeError> {
             let len = raw.array()?;
+            check_len(len, 4, "(vkey, signature, chain_code, attributes)")?;
             let ret = Self::deserialize_as_embedded_group(raw, len);
             match len {
                 cbor_event::Len::Len(_) =>
